@@ -173,6 +173,11 @@ pub fn build_base(t: &mut Tape, cfg: &CaseCfg, stats: &mut GenStats) -> Option<B
     };
     let mut use_scal_module = cfg.force_opts.is_none() && !schema.scalars.is_empty() && t.chance(p);
     let mut extern_enums_gql: Vec<String> = Vec::new();
+    if let Some(f) = &cfg.force_opts {
+        extern_enums_gql = f.extern_enums.iter().filter(|e| schema.enums.iter().any(|x| &x.name == *e)).cloned().collect();
+        use_scal_module = f.custom_scalars_module.is_some() && !schema.scalars.is_empty();
+        opts.custom_scalars_module = None;
+    }
     if cfg.force_opts.is_none() && cfg.allow_extern_enums {
         for e in &schema.enums {
             if t.chance(p / 2) {
